@@ -1,6 +1,7 @@
 package mon
 
 import (
+	goErr "errors"
 	"fmt"
 	"sort"
 	"strings"
@@ -51,6 +52,16 @@ var c18ops = []c18op{
 		fmt.Fprint(&b, errors.IsAny(e, refs...))
 		return b.String()
 	}},
+	// IsAny against references that do not match at the top: the search walks the whole chain
+	{"IsAny(no match at the top)", func(e error, refs []error, _ []byte) string {
+		var b strings.Builder
+		n := len(gen.Sentinels)
+		fmt.Fprint(&b, errors.IsAny(e, refs[:n]...))
+		for _, r := range refs[n:] {
+			fmt.Fprint(&b, errors.IsAny(e, c18never, r, c18never))
+		}
+		return b.String()
+	}},
 	{"As", func(e error, _ []error, _ []byte) string {
 		var b strings.Builder
 		for _, pr := range asProbes {
@@ -78,6 +89,8 @@ var c18ops = []c18op{
 	{"hop.Error", func(e error, _ []error, _ []byte) string { x, _ := sim.Hop(e); return x.Error() }},
 }
 
+var c18never = goErr.New("never matches")
+
 type interval struct {
 	g        int
 	from, to int64
@@ -86,6 +99,10 @@ type interval struct {
 func runC18(c *core.Ctx) {
 	g := gen.New(c.R)
 	t := g.Tree(1 + c.R.Intn(6))
+	// up to three annotation wrappers on top: most per-layer state lives in those
+	for i, d := 0, c.R.Intn(4); i < d; i++ {
+		t = g.Around(annotKinds[c.R.Intn(len(annotKinds))], t)
+	}
 	coverTree(c, t)
 	// The shared value stays COLD: nothing observes it before the
 	// goroutines are released (a lazily filled cache inside an error object
@@ -93,8 +110,8 @@ func runC18(c *core.Ctx) {
 	// hidden). The "executed alone" reference is computed on a twin built
 	// from the same descriptor, and again on the shared value afterwards.
 	// (both built from the same call site, so that the captured stacks are identical)
-	var built [2]error
-	var maps [2]gen.Built
+	built := make([]error, 2+len(c18ops))
+	maps := make([]gen.Built, 2+len(c18ops))
 	for i := range built {
 		var ok bool
 		if built[i], maps[i], ok = safeBuild(c, t); !ok {
@@ -124,6 +141,22 @@ func runC18(c *core.Ctx) {
 	}); p != nil {
 		c.Violate("panic/sequential", "an operation panicked when executed alone", fmt.Sprintf("%s\n%v", t, p))
 		return
+	}
+	// every operation as the FIRST one on a fresh, identical error: a read-only call must not
+	// depend on (or leave behind) state from other read-only calls
+	for i, op := range c18ops {
+		v := built[2+i]
+		if p := core.Try(func() {
+			if mode == "decoded" {
+				v = sim.DecBytes(sim.EncBytes(twin))
+			}
+			c.Count("first-call-on-fresh-value-comparisons", 1)
+			if got := op.f(v, refs, wire); got != want[i] {
+				c.Violate("order-dependent/"+op.name, "a call executed first on a fresh identical error returns another result than after other read-only calls", fmt.Sprintf("%s (%s)", t, mode))
+			}
+		}); p != nil {
+			c.Violate("panic/first-call", "an operation panicked when executed first on a fresh value", fmt.Sprintf("%s\n%v", t, p))
+		}
 	}
 	G, R := 16, 3
 	if c.Tier == "thorough" {
